@@ -110,8 +110,11 @@ Proof.
   fr_split num q cont cc0 st0 br b dirty; cbn; auto.
 Qed.
 
-Lemma fr_no_active num q cont cc0 st0 br fbr b cs t off dirty total :
-  active_has_byte total (fst (FR num q cont cc0 st0 br fbr b cs t off dirty)) = true.
+Definition no_active (l : list event) : bool :=
+  forallb (fun e => match e with St StActive => false | _ => true end) l.
+
+Lemma fr_no_active num q cont cc0 st0 br fbr b cs t off dirty :
+  no_active (fst (FR num q cont cc0 st0 br fbr b cs t off dirty)) = true.
 Proof.
   fr_split num q cont cc0 st0 br b dirty; cbn; auto.
 Qed.
@@ -140,74 +143,440 @@ Proof.
   intros H. rewrite skipn_app. replace (n - length l1) with 0 by lia. reflexivity.
 Qed.
 
+Lemma skipn_skipn' {A} x y (l : list A) : skipn x (skipn y l) = skipn (y + x) l.
+Proof.
+  revert l. induction y as [|y IH]; intros l; cbn; [reflexivity|].
+  destruct l; [now rewrite skipn_nil|]. apply IH.
+Qed.
+
 Lemma release_rule_spec b fbr :
   exists br' fbr', release_rule cfg b fbr = (br', fbr', b) /\ (br' = false -> b = []) /\ (br' = true -> fbr' = fbr).
 Proof.
   unfold release_rule. destruct (negb (stream_body cfg) && reduce_mem cfg && isnil b) eqn:Hc.
-  - destruct b; [|rewrite !andb_false_r in Hc; discriminate]. exists false, false. auto.
-  - exists true, fbr. repeat split; auto; discriminate.
+  - destruct b as [|x b]; [|rewrite !andb_false_r in Hc; discriminate].
+    exists false, false. split; [reflexivity|]. split; [reflexivity|discriminate].
+  - exists true, fbr. split; [reflexivity|]. split; [discriminate|reflexivity].
 Qed.
 
-Definition iter_tail (s : lst) (S : bytes) (fl mid tailev : list event) (r : iter_end) : Prop :=
-  (r = Exit /\ mid = [] /\ tailev = if unflushed_from (l_dirty s) fl then [Drop] else [])
+Lemma first_byte_got s b0 cs0 fbr :
+  (l_br s = false -> buf (l_rd s) = []) ->
+  first_byte cfg s = FbGot b0 cs0 fbr ->
+  b0 <> [] /\ b0 ++ concat cs0 = remaining (l_rd s).
+Proof.
+  intros Hbr. unfold first_byte. cbv zeta.
+  destruct (negb (reduce_mem cfg) || l_br s) eqn:Hc.
+  - destruct (peek1 (buf (l_rd s)) (chunks (l_rd s))) as [[b cs]|] eqn:Hp.
+    + intros H; injection H as <- <- <-. apply peek1_some in Hp as [H1 H2]. split; auto.
+    + destruct (tl (l_rd s)); [discriminate|]. destruct (1 <? l_num s + 1)%N; discriminate.
+  - apply orb_false_iff in Hc as [_ Hc]. specialize (Hbr Hc).
+    destruct (fbr_chunks (chunks (l_rd s))) as [cs1|] eqn:Hfc; [|discriminate].
+    destruct (peek1 [] cs1) as [[b cs]|] eqn:Hp; [|discriminate].
+    intros H; injection H as <- <- <-. apply peek1_some in Hp as [H1 H2]. split; auto.
+    rewrite <- H2. cbn. apply fbr_chunks_some in Hfc. rewrite Hfc. unfold remaining. rewrite Hbr. reflexivity.
+Qed.
+
+(* what an iteration does after the prelude [fl ++ mid]: *)
+Definition iter_tail (s : lst) (S : bytes) (fbr0 : bool) (d0 : bool) (mid tailev : list event) (r : iter_end) : Prop :=
+  (r = Exit /\ mid = [] /\ tailev = if d0 then [Drop] else [])
   \/ (r = Exit /\ exists e, tailev = [Resp (err_resp e); Flush])
   \/ exists q cont cc0 st0 br fbr b cs off,
-       tailev = fst (FR (l_num s + 1)%N q cont cc0 st0 br fbr b cs (tl (l_rd s)) off (unflushed_from (l_dirty s) (fl ++ mid))) /\
-       r = snd (FR (l_num s + 1)%N q cont cc0 st0 br fbr b cs (tl (l_rd s)) off (unflushed_from (l_dirty s) (fl ++ mid))) /\
-       (cont = false -> cc0 = true) /\
+       tailev = fst (FR (l_num s + 1)%N q cont cc0 st0 br fbr b cs (tl (l_rd s)) off (unflushed_from d0 mid)) /\
+       r = snd (FR (l_num s + 1)%N q cont cc0 st0 br fbr b cs (tl (l_rd s)) off (unflushed_from d0 mid)) /\
+       (cont = false -> cc0 = true) /\ (fbr = true -> fbr0 = true) /\
        (cont = true -> exists k, framed F S q k /\ b ++ concat cs = skipn k S /\ 0 < k <= length S /\
                                  off = l_off s + k /\ (br = false -> b = [])).
 
+Lemma after_head_spec s S fbr dirty q hn p1 b2 cs1 evs r :
+  is_prefix p1 S -> fhead F p1 = FhOk q hn -> 0 < hn <= length S ->
+  b2 ++ concat cs1 = skipn hn S ->
+  after_head F cfg E s fbr dirty q hn b2 cs1 = (evs, r) ->
+  exists mid tailev, evs = mid ++ tailev /\ (mid = [] \/ mid = [Resp continue_resp; Flush]) /\
+                     iter_tail s S fbr dirty mid tailev r.
+Proof.
+  intros Hp1 Hh Hhn Hb2. unfold after_head. cbv zeta.
+  destruct (release_rule_spec b2 fbr) as (br & fbr' & Hrr & Hrr1 & Hrr2).
+  assert (Hbody : forall b3 bn b4 cs4 fbr0 d evs0 r0 mid,
+            read_body F q b3 cs1 = RbOk bn b4 cs4 -> b3 = b2 ->
+            (let '(br2, fbr2, b6) := release_rule cfg (skipn bn b4) fbr0 in
+             finish_request cfg E (l_num s + 1)%N q true false StatusOK br2 fbr2 b6 cs4 (tl (l_rd s)) (l_off s + hn + bn) d) = (evs0, r0) ->
+            d = unflushed_from dirty mid -> (fbr0 = true -> fbr = true) ->
+            iter_tail s S fbr dirty mid evs0 r0).
+  { intros b3 bn b4 cs4 fbr0 d evs0 r0 mid Hrb -> Hfr Hd Hfb.
+    apply read_body_ok in Hrb as (H1 & H2 & H3).
+    destruct (release_rule_spec (skipn bn b4) fbr0) as (br2 & fbr2 & Hr2 & Hr3 & Hr4). rewrite Hr2 in Hfr.
+    right. right. exists q, true, false, StatusOK, br2, fbr2, (skipn bn b4), cs4, (l_off s + hn + bn).
+    subst d. rewrite Hfr. cbn. repeat split; try discriminate.
+    { intros Hx. destruct br2.
+      - apply Hfb. rewrite <- (Hr4 eq_refl). exact Hx.
+      - unfold release_rule in Hr2.
+        destruct (negb (stream_body cfg) && reduce_mem cfg && isnil (skipn bn b4)); congruence. }
+    intros _. exists (hn + bn).
+    assert (Hlen : bn <= length (skipn hn S)).
+    { rewrite <- Hb2, <- H1, app_length. lia. }
+    rewrite skipn_length in Hlen.
+    repeat split; try lia; auto.
+    - exists p1, hn, b4, bn. repeat split; auto. exists (concat cs4). rewrite <- Hb2, <- H1. reflexivity.
+    - rewrite <- skipn_app_le by exact H3. rewrite H1, Hb2, skipn_skipn'. reflexivity.
+  }
+  destruct (q_expect q).
+  - rewrite Hrr.
+    assert (Hgo : forall evs0 r0,
+      match read_body F q b2 cs1 with
+      | RbOk bn b4 cs4 =>
+          let '(br2, fbr2, b6) := release_rule cfg (skipn bn b4) (br && fbr') in
+          ([Resp continue_resp; Flush] ++ fst (finish_request cfg E (l_num s + 1)%N q true false StatusOK br2 fbr2 b6 cs4 (tl (l_rd s)) (l_off s + hn + bn) false),
+           snd (finish_request cfg E (l_num s + 1)%N q true false StatusOK br2 fbr2 b6 cs4 (tl (l_rd s)) (l_off s + hn + bn) false))
+      | RbErr e => ([Resp continue_resp; Flush] ++ fst (error_exit e), Exit)
+      | RbEnd b' => ([Resp continue_resp; Flush] ++ fst (error_exit (match body_end F q b' (tl (l_rd s)) with Some e => e | None => EcOther end)), Exit)
+      end = (evs0, r0) ->
+      exists mid tailev, evs0 = mid ++ tailev /\ (mid = [] \/ mid = [Resp continue_resp; Flush]) /\ iter_tail s S fbr dirty mid tailev r0).
+    { intros evs0 r0. destruct (read_body F q b2 cs1) as [bn b4 cs4|e|b'] eqn:Hrb.
+      - destruct (release_rule cfg (skipn bn b4) (br && fbr')) as [[br2 fbr2] b6] eqn:Hr2.
+        intros H; injection H as <- <-.
+        exists [Resp continue_resp; Flush]. eexists. split; [reflexivity|]. split; [auto|].
+        eapply Hbody with (fbr0 := br && fbr') (d := false); eauto.
+        { rewrite Hr2. apply surjective_pairing. }
+        { intros Hx. apply andb_true_iff in Hx as [Hx1 Hx2]. rewrite <- (Hrr2 Hx1). exact Hx2. }
+      - intros H; injection H as <- <-. exists [Resp continue_resp; Flush]. eexists. split; [reflexivity|]. split; [auto|].
+        right. left. split; auto. eexists; reflexivity.
+      - intros H; injection H as <- <-. exists [Resp continue_resp; Flush]. eexists. split; [reflexivity|]. split; [auto|].
+        right. left. split; auto. eexists; reflexivity. }
+    assert (Hrej : forall st evs0 r0,
+      finish_request cfg E (l_num s + 1)%N q false true st br fbr' [] cs1 (tl (l_rd s)) (l_off s + hn) dirty = (evs0, r0) ->
+      exists mid tailev, evs0 = mid ++ tailev /\ (mid = [] \/ mid = [Resp continue_resp; Flush]) /\ iter_tail s S fbr dirty mid tailev r0).
+    { intros st evs0 r0 Hfr. exists [], evs0. split; [reflexivity|]. split; [auto|].
+      right. right. exists q, false, true, st, br, fbr', [], cs1, (l_off s + hn).
+      change (unflushed_from dirty []) with dirty. rewrite Hfr.
+      repeat split; auto; try discriminate.
+      intros Hx. destruct br.
+      - rewrite <- (Hrr2 eq_refl). exact Hx.
+      - unfold release_rule in Hrr.
+        destruct (negb (stream_body cfg) && reduce_mem cfg && isnil b2); congruence. }
+    destruct (xmode cfg).
+    + apply Hgo.
+    + destruct (Z.eqb (expect_status E (l_num s + 1)%N q) StatusContinue); [apply Hgo|apply Hrej].
+    + destruct (continue_ok E (l_num s + 1)%N q); [apply Hgo|apply Hrej].
+  - destruct (read_body F q b2 cs1) as [bn b3 cs3|e|b'] eqn:Hrb.
+    + intros Hfr. exists [], evs. split; [reflexivity|]. split; [auto|].
+      eapply Hbody with (fbr0 := fbr) (d := dirty); eauto.
+    + intros H; injection H as <- <-. exists [], [Resp (err_resp e); Flush]. split; [reflexivity|]. split; [auto|].
+      right. left. split; auto. eexists; reflexivity.
+    + destruct (body_end F q b' (tl (l_rd s))) as [e|]; intros H; injection H as <- <-.
+      * exists [], [Resp (err_resp e); Flush]. split; [reflexivity|]. split; [auto|].
+        right. left. split; auto. eexists; reflexivity.
+      * exists [], (if dirty then [Drop] else []). split; [reflexivity|]. split; [auto|]. left. auto.
+Qed.
+
+
+Lemma serve_req_spec s b0 cs0 fbr evs r :
+  b0 ++ concat cs0 = remaining (l_rd s) ->
+  serve_req F cfg E s b0 cs0 fbr = (evs, r) ->
+  exists fl mid tailev,
+    evs = fl ++ mid ++ tailev /\ (fl = [] \/ (fl = [Flush] /\ l_dirty s = true)) /\
+    (mid = [] \/ mid = [Resp continue_resp; Flush]) /\
+    iter_tail s (remaining (l_rd s)) fbr (unflushed_from (l_dirty s) fl) mid tailev r.
+Proof.
+  intros HS. unfold serve_req. cbv zeta.
+  set (need0 := match fhead F b0 with FhMore => true | _ => false end).
+  set (fl := if l_dirty s && need0 then [Flush] else []).
+  assert (Hfl : fl = [] \/ (fl = [Flush] /\ l_dirty s = true)).
+  { unfold fl. destruct (l_dirty s), need0; cbn; auto. }
+  assert (Hd : l_dirty s && negb need0 = unflushed_from (l_dirty s) fl).
+  { unfold fl. destruct (l_dirty s), need0; reflexivity. }
+  rewrite Hd.
+  destruct (read_head F b0 cs0) as [q hn b1 cs1|e|b'] eqn:Hrh.
+  - apply read_head_ok in Hrh as (H1 & H2 & H3).
+    destruct (after_head F cfg E s fbr (unflushed_from (l_dirty s) fl) q hn (skipn hn b1) cs1) as [evs0 r0] eqn:Hah.
+    intros H; injection H as <- <-.
+    eapply after_head_spec with (S := remaining (l_rd s)) (p1 := b1) in Hah; eauto.
+    + destruct Hah as (mid & tailev & -> & Hmid & Ht). exists fl, mid, tailev. auto.
+    + exists (concat cs1). rewrite H1, HS. reflexivity.
+    + rewrite <- HS, <- H1, app_length. lia.
+    + rewrite <- skipn_app_le by lia. rewrite H1, HS. reflexivity.
+  - intros H; injection H as <- <-. exists fl, [], [Resp (err_resp e); Flush]. repeat split; auto.
+    right. left. split; auto. eexists; reflexivity.
+  - destruct (head_end F b' (tl (l_rd s))) as [e|]; intros H; injection H as <- <-.
+    + exists fl, [], [Resp (err_resp e); Flush]. repeat split; auto. right. left. split; auto. eexists; reflexivity.
+    + exists fl, [], (if unflushed_from (l_dirty s) fl then [Drop] else []). repeat split; auto. left. auto.
+Qed.
+
+Definition linv (s : lst) : Prop := l_br s = false -> buf (l_rd s) = [].
+
 Lemma iter_decomp s evs r :
-  (l_br s = false -> buf (l_rd s) = []) ->
+  linv s ->
   serve_iter F cfg E s = (evs, r) ->
-  let S := remaining (l_rd s) in
   (r = Exit /\ evs = (if l_dirty s then [Drop] else []))
   \/ (r = Exit /\ evs = [Resp (err_resp EcTimeout); Flush])
   \/ exists avail fl mid tailev,
-       evs = St StActive :: ParseAt (l_off s) avail :: fl ++ mid ++ tailev /\ 1 <= avail <= length S /\
+       evs = St StActive :: ParseAt (l_off s) avail :: fl ++ mid ++ tailev /\
+       1 <= avail <= length (remaining (l_rd s)) /\
        (fl = [] \/ (fl = [Flush] /\ l_dirty s = true)) /\ (mid = [] \/ mid = [Resp continue_resp; Flush]) /\
-       iter_tail s S fl mid tailev r.
+       exists fbr0, (fbr0 = true -> reduce_mem cfg = true \/ l_fbr s = true) /\
+       iter_tail s (remaining (l_rd s)) fbr0 (unflushed_from (l_dirty s) fl) mid tailev r.
 Proof.
-  intros Hbr. unfold serve_iter. cbv zeta.
-  set (rd := l_rd s). set (S := remaining rd).
-  (* phase 1: the first byte *)
-  assert (Hfirst : forall b0 cs0, b0 <> [] -> b0 ++ concat cs0 = S -> 1 <= length b0 <= length S).
-  { intros b0 cs0 Hne He. rewrite <- He, app_length. destruct b0; [congruence|cbn; lia]. }
-  match goal with |- (match ?first with _ => _ end = _ -> _) => destruct first as [[[[b0 cs0] fbr]|]|r0] eqn:Hf end.
-  2:{ intros H. injection H as <- <-. left. unfold silent_exit. auto. }
-  2:{ (* exits before any byte *)
-      intros H. subst r0.
-      destruct (negb (reduce_mem cfg) || l_br s).
-      - destruct (peek1 (buf rd) (chunks rd)) as [[b cs]|]; [discriminate|].
-        destruct (tl rd).
-        + injection Hf as <- <-. left. unfold silent_exit; auto.
-        + destruct (1 <? l_num s + 1)%N; injection Hf as <- <-; [left; unfold silent_exit; auto|right; left; auto].
-      - destruct (fbr_chunks (chunks rd)) as [cs0|]; [|injection Hf as <- <-; left; unfold silent_exit; auto].
-        destruct (peek1 [] cs0) as [[b cs]|]; [discriminate|]. injection Hf as <- <-; left; unfold silent_exit; auto. }
-  assert (Hb0 : b0 <> [] /\ b0 ++ concat cs0 = S).
-  { destruct (negb (reduce_mem cfg) || l_br s) eqn:Hc.
-    - destruct (peek1 (buf rd) (chunks rd)) as [[b cs]|] eqn:Hp.
-      + injection Hf as <- <- <-. apply peek1_some in Hp as [H1 H2]. split; auto.
-      + destruct (tl rd); [discriminate|]. destruct (1 <? l_num s + 1)%N; discriminate.
-    - apply orb_false_iff in Hc as [_ Hc]. specialize (Hbr Hc).
-      destruct (fbr_chunks (chunks rd)) as [cs1|] eqn:Hfc; [|discriminate].
-      destruct (peek1 [] cs1) as [[b cs]|] eqn:Hp; [|discriminate].
-      injection Hf as <- <- <-. apply peek1_some in Hp as [H1 H2]. split; auto.
-      rewrite <- H2. cbn. apply fbr_chunks_some in Hfc. rewrite Hfc. unfold S, remaining. fold rd. rewrite Hbr. reflexivity. }
-  destruct Hb0 as [Hne HS]. clear Hf.
-  pose proof (Hfirst _ _ Hne HS) as Hav.
-  intros Hrun. right. right. exists (length b0).
-  set (need0 := match fhead F b0 with FhMore => true | _ => false end) in *.
-  exists (if l_dirty s && need0 then [Flush] else []).
-  assert (Hfl : (if l_dirty s && need0 then [Flush] else []) = [] \/
-                ((if l_dirty s && need0 then [Flush] else []) = [Flush] /\ l_dirty s = true)).
-  { destruct (l_dirty s), need0; cbn; auto. }
-  assert (Hd : unflushed_from (l_dirty s) (if l_dirty s && need0 then [Flush] else []) = l_dirty s && negb need0).
-  { destruct (l_dirty s), need0; reflexivity. }
-  (* phase 2: the head *)
-  destruct (read_head F b0 cs0) as [q hn b1 cs1|e|b'] eqn:Hrh.
-  3:{ exists [], (snd (A:=list event) (B:=iter_end) (match head_end F b' (tl rd) with None => silent_exit (l_dirty s && negb need0) | Some e => error_exit e end), Exit) .
-      exfalso. Abort.
+  intros Hinv. unfold serve_iter.
+  destruct (first_byte cfg s) as [b0 cs0 fbr| |] eqn:Hfb.
+  - assert (Hfbr : fbr = true -> reduce_mem cfg = true \/ l_fbr s = true).
+    { revert Hfb. unfold first_byte. cbv zeta. destruct (negb (reduce_mem cfg) || l_br s) eqn:Hc.
+      - destruct (peek1 (buf (l_rd s)) (chunks (l_rd s))) as [[b cs]|].
+        + intros H; injection H as <- <- <-. auto.
+        + destruct (tl (l_rd s)); [discriminate|]. destruct (1 <? l_num s + 1)%N; discriminate.
+      - apply orb_false_iff in Hc as [Hc _]. apply negb_false_iff in Hc. auto. }
+    apply first_byte_got in Hfb as [Hne HS]; [|exact Hinv].
+    destruct (serve_req F cfg E s b0 cs0 fbr) as [evs0 r0] eqn:Hsr.
+    intros H; injection H as <- <-. right. right.
+    apply serve_req_spec in Hsr as (fl & mid & tailev & -> & H1 & H2 & H3); [|exact HS].
+    exists (length b0), fl, mid, tailev. repeat split; auto.
+    + destruct b0; [congruence|cbn; lia].
+    + rewrite <- HS, app_length. lia.
+    + exists fbr. auto.
+  - intros H; injection H as <- <-. left. auto.
+  - intros H; injection H as <- <-. right. left. auto.
+Qed.
+
+
+(* ---------- facts about trace functions ---------- *)
+Lemma sts_app a b : sts (a ++ b) = sts a ++ sts b.
+Proof. induction a as [|x a IH]; cbn; [reflexivity|]. destruct x; cbn; rewrite ?IH; reflexivity. Qed.
+
+Lemma unflushed_app d a b : unflushed_from d (a ++ b) = unflushed_from (unflushed_from d a) b.
+Proof. revert d. induction a as [|x a IH]; intros d; cbn; [reflexivity|]. destruct x; apply IH. Qed.
+
+Lemma no_active_app a b : no_active (a ++ b) = no_active a && no_active b.
+Proof. unfold no_active. apply forallb_app. Qed.
+
+Lemma active_skip total a b : no_active a = true -> active_has_byte total (a ++ b) = active_has_byte total b.
+Proof.
+  induction a as [|x a IH]; cbn; [reflexivity|]. intros H. apply andb_true_iff in H as [H1 H2].
+  destruct x as [st| | | | | | | | |]; auto. destruct st; auto. discriminate.
+Qed.
+
+(* ---------- what one iteration guarantees ---------- *)
+Definition sinv (S0 : bytes) (s : lst) : Prop :=
+  remaining (l_rd s) = skipn (l_off s) S0 /\ l_off s <= length S0.
+
+Lemma fl_mid_facts fl mid (d : bool) :
+  (fl = [] \/ (fl = [Flush] /\ d = true)) -> (mid = [] \/ mid = [Resp continue_resp; Flush]) ->
+  sts fl = [] /\ sts mid = [] /\ no_active fl = true /\ no_active mid = true.
+Proof. intros [->|[-> _]] [->| ->]; cbn; auto. Qed.
+
+Lemma iter_next s evs s' :
+  linv s -> serve_iter F cfg E s = (evs, Next s') ->
+  linv s' /\ l_num s' = (l_num s + 1)%N /\
+  (exists k, 0 < k <= length (remaining (l_rd s)) /\ remaining (l_rd s') = skipn k (remaining (l_rd s)) /\
+             l_off s' = l_off s + k) /\
+  l_dirty s' = unflushed_from (l_dirty s) evs /\ sts evs = [StActive; StIdle] /\
+  (l_fbr s' = true -> reduce_mem cfg = true \/ l_fbr s = true).
+Proof.
+  intros Hinv Hrun. apply iter_decomp in Hrun; [|exact Hinv].
+  destruct Hrun as [[H _]|[[H _]|Hrun]]; try discriminate.
+  destruct Hrun as (avail & fl & mid & tailev & -> & Hav & Hfl & Hmid & fbr0 & Hfbr0 & Ht).
+  destruct (fl_mid_facts _ _ _ Hfl Hmid) as (S1 & S2 & _ & _).
+  destruct Ht as [[H _]|[[H _]|Ht]]; try discriminate.
+  destruct Ht as (q & cont & cc0 & st0 & br & fbr & b & cs & off & -> & Hr & Hc0 & Hfb & Hk).
+  symmetry in Hr. pose proof (fr_sts (l_num s + 1)%N q cont cc0 st0 br fbr b cs (tl (l_rd s)) off
+     (unflushed_from (unflushed_from (l_dirty s) fl) mid)) as Hsts. rewrite Hr in Hsts.
+  apply fr_next in Hr as (N1 & N2 & N3 & N4 & N5 & N6 & N7); [|exact Hc0].
+  destruct (Hk N7) as (k & _ & Hk2 & Hk3 & Hk4 & Hk5).
+  repeat split.
+  - unfold linv. rewrite N2, N4. cbn. exact Hk5.
+  - exact N1.
+  - exists k. split; [exact Hk3|]. rewrite N4, N5. unfold remaining at 1. cbn. auto.
+  - rewrite N6. cbn. rewrite !unflushed_app. reflexivity.
+  - cbn. rewrite !sts_app, S1, S2, Hsts. reflexivity.
+  - rewrite N3. intros Hx. auto.
+Qed.
+
+
+Lemma iter_sts s evs r :
+  linv s -> serve_iter F cfg E s = (evs, r) ->
+  match r with
+  | Next _ => sts evs = [StActive; StIdle]
+  | ExitHijack => sts evs = [StActive]
+  | Exit => sts evs = [] \/ sts evs = [StActive] \/ sts evs = [StActive; StIdle]
+  end.
+Proof.
+  intros Hinv Hrun. apply iter_decomp in Hrun; [|exact Hinv].
+  destruct Hrun as [[-> ->]|[[-> ->]|Hrun]].
+  - left. destruct (l_dirty s); reflexivity.
+  - left. reflexivity.
+  - destruct Hrun as (avail & fl & mid & tailev & -> & Hav & Hfl & Hmid & fbr0 & Hfbr0 & Ht).
+    destruct (fl_mid_facts _ _ _ Hfl Hmid) as (S1 & S2 & _ & _).
+    cbn. rewrite !sts_app, S1, S2. cbn.
+    destruct Ht as [(-> & _ & ->)|[(-> & e & ->)|Ht]].
+    + right. left. destruct (unflushed_from (l_dirty s) fl); reflexivity.
+    + right. left. reflexivity.
+    + destruct Ht as (q & cont & cc0 & st0 & br & fbr & b & cs & off & -> & -> & _).
+      pose proof (fr_sts (l_num s + 1)%N q cont cc0 st0 br fbr b cs (tl (l_rd s)) off
+                    (unflushed_from (unflushed_from (l_dirty s) fl) mid)) as Hsts.
+      destruct (snd (FR (l_num s + 1)%N q cont cc0 st0 br fbr b cs (tl (l_rd s)) off
+                    (unflushed_from (unflushed_from (l_dirty s) fl) mid))).
+      * rewrite Hsts. reflexivity.
+      * destruct Hsts as [-> | ->]; auto.
+      * rewrite Hsts. reflexivity.
+Qed.
+
+Lemma iter_active S0 s evs r rest :
+  linv s -> sinv S0 s -> serve_iter F cfg E s = (evs, r) ->
+  active_has_byte (length S0) (evs ++ rest) = active_has_byte (length S0) rest.
+Proof.
+  intros Hinv [Hs1 Hs2] Hrun. apply iter_decomp in Hrun; [|exact Hinv].
+  destruct Hrun as [[-> ->]|[[-> ->]|Hrun]].
+  - destruct (l_dirty s); reflexivity.
+  - reflexivity.
+  - destruct Hrun as (avail & fl & mid & tailev & -> & Hav & Hfl & Hmid & fbr0 & Hfbr0 & Ht).
+    destruct (fl_mid_facts _ _ _ Hfl Hmid) as (_ & _ & A1 & A2).
+    assert (Hna : no_active (fl ++ mid ++ tailev) = true).
+    { rewrite !no_active_app, A1, A2. cbn.
+      destruct Ht as [(-> & _ & ->)|[(-> & e & ->)|Ht]].
+      - destruct (unflushed_from (l_dirty s) fl); reflexivity.
+      - reflexivity.
+      - destruct Ht as (q & cont & cc0 & st0 & br & fbr & b & cs & off & -> & _). apply fr_no_active. }
+    cbn [app active_has_byte].
+    assert (Hle : (1 <=? avail) = true) by (apply Nat.leb_le; lia).
+    assert (Hle2 : (l_off s + avail <=? length S0) = true).
+    { apply Nat.leb_le. rewrite Hs1, skipn_length in Hav. lia. }
+    rewrite Hle, Hle2. cbn [andb].
+    change (ParseAt (l_off s) avail :: (fl ++ mid ++ tailev) ++ rest)
+      with ((ParseAt (l_off s) avail :: fl ++ mid ++ tailev) ++ rest).
+    apply active_skip. cbn. exact Hna.
+Qed.
+
+(* ---------- the loop ---------- *)
+Lemma sinv_next S0 s s' k :
+  sinv S0 s -> 0 < k <= length (remaining (l_rd s)) -> remaining (l_rd s') = skipn k (remaining (l_rd s)) ->
+  l_off s' = l_off s + k -> sinv S0 s'.
+Proof.
+  intros [H1 H2] Hk Hr Ho. split.
+  - rewrite Hr, H1, skipn_skipn', Ho. reflexivity.
+  - rewrite H1, skipn_length in Hk. lia.
+Qed.
+
+Lemma loop_fuel fuel s :
+  linv s -> length (remaining (l_rd s)) < fuel -> snd (serve_loop F cfg E fuel s) <> LOutOfFuel.
+Proof.
+  revert s. induction fuel as [|f IH]; intros s Hinv Hlen; [lia|].
+  cbn. destruct (serve_iter F cfg E s) as [e1 r] eqn:Hit.
+  destruct r as [s'| |]; cbn; try discriminate.
+  apply iter_next in Hit as (I1 & _ & (k & Hk & Hr & _) & _); [|exact Hinv].
+  specialize (IH s' I1). destruct (serve_loop F cfg E f s') as [e2 r2]. cbn in *. apply IH.
+  rewrite Hr, skipn_length. lia.
+Qed.
+
+(* C14: from automaton state ANew or AIdle the loop's reports followed by the caller's lead to ADone *)
+Lemma loop_lang fuel s a :
+  linv s -> (a = ANew \/ a = AIdle) ->
+  snd (serve_loop F cfg E fuel s) <> LOutOfFuel ->
+  arun a (sts (fst (serve_loop F cfg E fuel s) ++ after_loop cfg (snd (serve_loop F cfg E fuel s)))) = ADone.
+Proof.
+  revert s a. induction fuel as [|f IH]; intros s a Hinv Ha; cbn; [congruence|].
+  destruct (serve_iter F cfg E s) as [e1 r] eqn:Hit.
+  pose proof (iter_sts _ _ _ Hinv Hit) as Hs.
+  destruct r as [s'| |].
+  - apply iter_next in Hit as (I1 & _); [|exact Hinv].
+    specialize (IH s' AIdle I1 (or_intror eq_refl)).
+    destruct (serve_loop F cfg E f s') as [e2 r2]. cbn in *. intros Hne.
+    rewrite <- app_assoc, sts_app, Hs. unfold arun in *. rewrite fold_left_app.
+    destruct Ha as [-> | ->]; cbn; apply IH; exact Hne.
+  - cbn. intros _. rewrite sts_app. cbn.
+    destruct Hs as [-> |[-> | ->]]; destruct Ha as [-> | ->]; reflexivity.
+  - cbn. intros _. rewrite sts_app, Hs. destruct (keep_hijacked cfg); destruct Ha as [-> | ->]; reflexivity.
+Qed.
+
+Lemma loop_active S0 fuel s rest :
+  linv s -> sinv S0 s ->
+  active_has_byte (length S0) (fst (serve_loop F cfg E fuel s) ++ rest) = active_has_byte (length S0) rest.
+Proof.
+  revert s. induction fuel as [|f IH]; intros s Hinv Hsinv; cbn; [reflexivity|].
+  destruct (serve_iter F cfg E s) as [e1 r] eqn:Hit.
+  pose proof (iter_active S0 s e1 r) as Ha.
+  destruct r as [s'| |]; cbn; try (apply Ha; auto).
+  apply iter_next in Hit as Hn; [|exact Hinv]. destruct Hn as (I1 & _ & (k & Hk & Hr & Ho) & _).
+  specialize (IH s' I1 (sinv_next _ _ _ _ Hsinv Hk Hr Ho)).
+  destruct (serve_loop F cfg E f s') as [e2 r2]. cbn in *.
+  rewrite <- app_assoc. rewrite Ha by auto. apply IH.
+Qed.
+
+
+(* ---------- C14 at the level of serve_conn ---------- *)
+Lemma lst_init_inv rd : linv (lst_init rd) /\ sinv (remaining rd) (lst_init rd) /\
+                        remaining (l_rd (lst_init rd)) = remaining rd.
+Proof.
+  unfold linv, sinv, lst_init, remaining. cbn. repeat split; auto; lia.
+Qed.
+
+Lemma serve_conn_admit en rd :
+  serve_conn F cfg E en Admit rd =
+  St StNew :: fst (serve_loop F cfg E (S (length (remaining rd))) (lst_init rd))
+           ++ after_loop cfg (snd (serve_loop F cfg E (S (length (remaining rd))) (lst_init rd))).
+Proof.
+  unfold serve_conn, serve_conn_fuel.
+  destruct (serve_loop F cfg E (S (length (remaining rd))) (lst_init rd)). reflexivity.
+Qed.
+
+Lemma serve_conn_fuel_ok rd :
+  snd (serve_loop F cfg E (S (length (remaining rd))) (lst_init rd)) <> LOutOfFuel.
+Proof.
+  destruct (lst_init_inv rd) as (I1 & _ & I3). apply loop_fuel; [exact I1|]. rewrite I3. lia.
+Qed.
+
+Theorem state_language en ad rd : accepts (sts (serve_conn F cfg E en ad rd)) = true.
+Proof.
+  destruct ad.
+  - rewrite serve_conn_admit. destruct (lst_init_inv rd) as (I1 & _).
+    pose proof (loop_lang (S (length (remaining rd))) (lst_init rd) ANew I1 (or_introl eq_refl) (serve_conn_fuel_ok rd)) as H.
+    unfold accepts. cbn [sts]. unfold arun in *. cbn [fold_left astep]. rewrite H. reflexivity.
+  - destruct en; reflexivity.
+  - destruct en; reflexivity.
+Qed.
+
+Theorem active_after_first_byte en ad rd :
+  active_has_byte (length (remaining rd)) (serve_conn F cfg E en ad rd) = true.
+Proof.
+  destruct ad.
+  - rewrite serve_conn_admit. destruct (lst_init_inv rd) as (I1 & I2 & _). cbn [active_has_byte].
+    rewrite loop_active by auto.
+    destruct (snd (serve_loop F cfg E (S (length (remaining rd))) (lst_init rd))); cbn; auto.
+    destruct (keep_hijacked cfg); reflexivity.
+  - destruct en; reflexivity.
+  - destruct en; reflexivity.
+Qed.
 
 End Loop.
+
+(* a word the automaton accepts has exactly one terminal report, at the end (or is empty) *)
+Lemma arun_dead l : fold_left astep l ADead = ADead.
+Proof. induction l as [|x l IH]; [reflexivity|]. cbn. destruct x; exact IH. Qed.
+
+Lemma arun_done l : l <> [] -> fold_left astep l ADone = ADead.
+Proof.
+  destruct l as [|x l]; [congruence|]. intros _. cbn.
+  replace (astep ADone x) with ADead by (destruct x; reflexivity). apply arun_dead.
+Qed.
+
+Lemma arun_live a l :
+  (fold_left astep l a = ANew \/ fold_left astep l a = AActive \/ fold_left astep l a = AIdle) ->
+  forallb (fun s => negb (is_terminal s)) l = true.
+Proof.
+  revert a. induction l as [|x l IH]; intros a H; [reflexivity|].
+  cbn in H. cbn.
+  destruct (is_terminal x) eqn:Hx.
+  - exfalso. assert (Hd : astep a x = ADone \/ astep a x = ADead) by (destruct a, x; cbn in *; auto; discriminate).
+    destruct Hd as [Hd|Hd]; rewrite Hd in H.
+    + destruct l as [|y l]; [cbn in H; intuition discriminate|].
+      rewrite arun_done in H by discriminate. intuition discriminate.
+    + rewrite arun_dead in H. intuition discriminate.
+  - cbn. eapply IH. exact H.
+Qed.
+
+Theorem accepts_terminal_once l : accepts l = true -> terminal_once l.
+Proof.
+  unfold accepts, arun. destruct l as [|x l] using rev_ind; [left; reflexivity|]. clear IHl.
+  intros H. right. exists l, x. split; [reflexivity|].
+  rewrite fold_left_app in H. cbn in H.
+  destruct (fold_left astep l A0) eqn:Ha; destruct x; cbn in H; try discriminate; split; try reflexivity;
+    try (apply (arun_live A0); rewrite Ha; auto).
+  all: exfalso; destruct l as [|y l] using rev_ind; [discriminate|];
+    rewrite fold_left_app in Ha; cbn in Ha;
+    destruct (fold_left astep l A0), y; discriminate.
+Qed.
